@@ -265,3 +265,45 @@ Fixpoint grun (base nodes size : Z) (tb : lwtab) (ops : list gop) : list gobs * 
 
 Definition run_long (base nodes size maxfree : Z) (ops : list gop) : list gobs * ending :=
   grun base nodes size (mkTab [] (fq_new maxfree) (fun _ => 0) 0) ops.
+
+(* ---------- one LongWaitLockQueue under an arbitrary mix of its operations ---------- *)
+Inductive lop : Type :=
+| LPush (x : N)             (* LongWaitLockQueue.Push *)
+| LRemove (x : N)           (* LongWaitLockQueue.Remove *)
+| LRemovePolicy (x : N)     (* RemoveLongTimeOut / RemoveLongExpried: Remove, then restructure when the trigger holds *)
+| LPop | LLen
+| LRestructure              (* restructuringLong*Queue (without the final release of an empty queue) *)
+| LConsume.                 (* n := Len(); n times Pop(), keeping the non-nil results *)
+
+Inductive lobs : Type := LUnit | LRestr (b : bool) | LVal (v : slot) | LLens (n c f : Z) | LList (l : list N).
+
+Definition lw_step (st : istore) (l : lwq) (o : lop) : res (lwq * istore * lobs) :=
+  match o with
+  | LPush x => '(l, st) <- lw_push st l x ;; Ok (l, st, LUnit)
+  | LRemove x => '(l, st) <- lw_remove st l x ;; Ok (l, st, LUnit)
+  | LRemovePolicy x =>
+    '(l, st) <- lw_remove st l x ;;
+    if lw_trigger l then '(l, st) <- lw_restructure st l ;; Ok (l, st, LRestr true) else Ok (l, st, LRestr false)
+  | LPop => '(l, st, v) <- lw_pop st l ;; Ok (l, st, LVal v)
+  | LLen => n <- lw_len l ;; Ok (l, st, LLens n (lw_count l) (lw_free l))
+  | LRestructure => '(l, st) <- lw_restructure st l ;; Ok (l, st, LUnit)
+  | LConsume => n <- lw_len l ;; '(l, st, got) <- consume (Z.to_nat n) st l [] ;; Ok (l, st, LList got)
+  end.
+
+Fixpoint lw_run (st : istore) (l : lwq) (ops : list lop) : list lobs * ending :=
+  match ops with
+  | [] => ([], EDone)
+  | o :: r =>
+    match lw_step st l o with
+    | Ok (l', st', ob) => let '(obs, e) := lw_run st' l' r in (ob :: obs, e)
+    | Panic => ([], EPanic)
+    | OutOfFuel => ([], EFuel)
+    end
+  end.
+
+Definition lw_run_new (base nodes size : Z) (ops : list lop) : list lobs * ending :=
+  match lw_new base nodes size 0 with
+  | Ok l => lw_run (fun _ => 0) l ops
+  | Panic => ([], EPanic)
+  | OutOfFuel => ([], EFuel)
+  end.
